@@ -54,8 +54,13 @@ def gen_attr(rng, k, simple_names):
     m = rng.random()
     if m < 0.2:
         a["fixed"] = rng.choice(["f1", "42", "on"])
-        if rng.random() < 0.5:
+        k2 = rng.random()
+        if k2 < 0.4:
             a["type"] = "xs:string"
+        elif k2 < 0.65:
+            # a fixed value of a type with several lexical forms for one value (true / 1, false / 0)
+            a["type"] = "xs:boolean"
+            a["fixed"] = rng.choice(["true", "false", "1", "0"])
     elif m < 0.75:
         a["type"] = rng.choice(BUILTINS + simple_names)
     else:
